@@ -29,13 +29,27 @@ func (k *c19Conn) Send(v interface{}) error {
 }
 func (k *c19Conn) Unsubscribe() { k.cleanups++ }
 
-type c19ConnRoot struct{ next *c19Conn }
+type c19ConnRoot struct {
+	next *c19Conn
+	// reuse: the resolver keeps the Subscription it made for a connection and hands the same object out again when that
+	// connection subscribes again (a server that keeps one subscription per client)
+	reuse bool
+	kept  map[*c19Conn]*ggql.Subscription
+}
 
 func (r *c19ConnRoot) Resolve(field *ggql.Field, args map[string]interface{}) (interface{}, error) {
 	switch field.Name {
 	case "subscription":
 		return r, nil
 	case "listen", "must":
+		if r.reuse {
+			if s := r.kept[r.next]; s != nil {
+				return s, nil
+			}
+			s := ggql.NewSubscription(r.next, field, args)
+			r.kept[r.next] = s
+			return s, nil
+		}
 		return ggql.NewSubscription(r.next, field, args), nil
 	}
 	return 1, nil
@@ -142,6 +156,55 @@ func c19SharedSubscriber(c *run.Ctx, kind string) int {
 			continue
 		}
 		c.Count("deliveries_checked", len(c1.sent)+len(c2.sent))
+	}
+	// a Subscription object that is registered, dropped after a failed delivery and registered again (the resolver keeps
+	// one per connection): after the second request returned, events reach it again
+	for round := 0; round < c.N(6, 60); round++ {
+		ro := &c19ConnRoot{reuse: true, kept: map[*c19Conn]*ggql.Subscription{}}
+		root := ggql.NewRoot(ro)
+		if err := root.ParseString(subSDL); err != nil {
+			return done
+		}
+		k := &c19Conn{id: "c3", refuse: `"tag":"big`}
+		other := &c19Conn{id: "c4"}
+		var hist []string
+		step := func(what string, ok bool, diag string) bool {
+			hist = append(hist, what)
+			if !ok {
+				c.Violation(kind, map[string]interface{}{"history": hist, "diag": diag, "c3_received": k.sent, "c3_cleanups": k.cleanups})
+			}
+			return ok
+		}
+		sub := func(conn *c19Conn) bool {
+			ro.next = conn
+			res := root.ResolveString(`subscription { listen(topic: "x") { id tag } }`, "", nil)
+			return step(conn.id+" subscribes", res["errors"] == nil, fmt.Sprint("subscription request rejected: ", res["errors"]))
+		}
+		done++
+		c.Eval(fmt.Sprintf("resubscribed-subscription|%d", round), true)
+		c.Bucket("subscription_field", "the-same-Subscription-object-registered-again")
+		if !sub(k) || (round%2 == 1 && !sub(other)) {
+			continue
+		}
+		n := 1 + round%2
+		cnt, err := root.AddEvent("all", &subEvent{uid: 1, id: "e1", tag: "big one"})
+		if !step("publish e1 (c3 can not carry it)", cnt == n && err != nil && k.cleanups == 1, fmt.Sprintf("matched %d (expected %d), error %v, clean-ups of c3 %d (expected 1)", cnt, n, err != nil, k.cleanups)) {
+			continue
+		}
+		cnt, _ = root.AddEvent("all", &subEvent{uid: 2, id: "e2", tag: "small"})
+		if !step("publish e2", cnt == n-1 && len(k.sent) == 0, fmt.Sprintf("matched %d (expected %d: c3 was dropped), c3 received %v", cnt, n-1, k.sent)) {
+			continue
+		}
+		if !sub(k) {
+			continue
+		}
+		cnt, err = root.AddEvent("all", &subEvent{uid: 3, id: "e3", tag: "small"})
+		if !step("publish e3", cnt == n && err == nil && len(k.sent) == 1 && k.sent[0] == `{"id":"e3","tag":"small"}`,
+			fmt.Sprintf("after c3 subscribed again: matched %d (expected %d), error %v, c3 received %v (expected e3)", cnt, n, err != nil, k.sent)) {
+			continue
+		}
+		rem := root.Unsubscribe("c3")
+		step("unsubscribe c3", rem == 1 && k.cleanups == 2, fmt.Sprintf("Unsubscribe(c3) removed %d (expected 1), clean-ups of c3 now %d (expected 2)", rem, k.cleanups))
 	}
 	return done
 }
